@@ -25,8 +25,7 @@ SPEC = {
     "required_obs": {"quick": ["logical_line_len/70", "logical_line_len/71", "logical_line_len/72", "logical_line_len/73", "logical_line_len/74", "logical_line_len/75",
                                "logical_line_len/142", "logical_line_len/143", "logical_line_len/144", "logical_line_len/213", "logical_line_len/214", "logical_line_len/215",
                                "wraps_per_logical_line/0", "wraps_per_logical_line/1", "wraps_per_logical_line/2", "wraps_per_logical_line/3",
-                               "wrap_class/in-number", "wrap_class/after-minus", "wrap_class/before-blank", "wrap_class/after-blank", "wrap_class/in-keyword", "wrap_class/after-equals",
-                               "physical_line_len/79", "cov_zero_bonds", "cov_parser_made", "cov_corpus", "cov_wide_bond_line"]},
+                               "cov_zero_bonds", "cov_parser_made", "cov_corpus", "cov_wide_bond_line", "cov_wrapped_bond_line_by_construction", "wrapped_bond_lines"]},
     "watchdog_s": {"quick": 900, "thorough": 5400},
 }
 PLAN = {"quick": {"targeted": 5000, "random": 1500, "cycle": 600}, "thorough": {"targeted": 60000, "random": 15000, "cycle": 6000}}
@@ -160,10 +159,14 @@ def run(ctx):
         for a in mol.atoms:
             a.mass = a.mass if a.mass > 0 else 0
         g = bridge.graph_direct(mol)
-        if rng.random() < 0.3 and g.number_of_edges():
-            big = {v: rng.randrange(10 ** 20, 10 ** 30) for v in g.nodes}
+        if rng.random() < 0.4 and g.number_of_edges():
+            # labels wide enough that BOND lines exceed 72 characters and wrap (one or two times), targeted around the wrap boundary
+            w = rng.choice([20, 30, 32, 33, 34, 35, 36, 40, 66, 68, 70, 72])
+            big = {v: rng.randrange(10 ** (w - 1), 10 ** w) for v in g.nodes}
             g = nx.relabel_nodes(g, big, copy=True)
             ctx.count("cov_wide_bond_line")
+            if 2 * w + 6 > 72:
+                ctx.count("cov_wrapped_bond_line_by_construction")
         write(ctx, g, {"graph": graph_to_case(g)})
     for name, g in common.corpus_graphs(ctx):
         write(ctx, g, {"graph": graph_to_case(g)})
